@@ -730,7 +730,10 @@ def read_pdf_geometry(data):
                 break
         rec['ctm'] = m
         rec['ncm'] = ncm
-        rec['rest'] = hashlib.sha1(repr([(op, [repr(a) for a in args]) for op, args in ops[rest_from:]]).encode()).hexdigest()[:16]
+        # operators after the scale matrix: numbers kept as numbers (compared with a tolerance: pydyf prints 6 decimals
+        # and a 1e-17 prints as '0.'), everything else as text
+        rec['rest'] = [[op, [float(a) if isinstance(a, (int, float)) and not isinstance(a, bool) else repr(a) for a in args]]
+                       for op, args in ops[rest_from:]]
         rec['nops'] = len(ops)
         out['pages'].append(rec)
     dests = []
@@ -771,6 +774,17 @@ def zoom_render(case):
         pdf = document.write_pdf(zoom=z, uncompressed_pdf=True, **opts)
         g = read_pdf_geometry(pdf)
         out['same_document'].append({'pages': [{k: p[k] for k in ('MediaBox', 'rest', 'ctm')} for p in g['pages']]})
+    # keep the result small: identical op lists are sent once
+    seen = {}
+    for group in (out['fresh'], out['same_document']):
+        for g in group:
+            for p in g['pages']:
+                key = json.dumps(p['rest'])
+                if key in seen:
+                    p['rest'] = {'same_as': seen[key]}
+                else:
+                    seen[key] = len(seen)
+                    p['rest'] = {'id': seen[key], 'ops': p['rest']}
     return out
 
 
